@@ -32,7 +32,7 @@ func init() {
 	core.Register(&core.Spec{
 		ID:    "C03",
 		Level: "exploration",
-		Rule: "constructive pairs: a semantic value is drawn per family (ports, volumes, secrets/configs, devices, build, env_file, label_file, depends_on, networks, extends, healthcheck.test, external, include, string|list, KEY=VALUE list|mapping, extra_hosts, build.ssh, durations, byte sizes, ulimits int|string, command/entrypoint shell strings), " +
+		Rule: "constructive pairs: a semantic value is drawn per family (ports, volumes, secrets/configs, devices, build, env_file, label_file, depends_on, networks, extends, healthcheck.test, external, include, string|list, KEY=VALUE list|mapping, extra_hosts, build.ssh, durations, byte sizes, ulimits int|string, command/entrypoint shell strings incl. the empty string against `[]`), " +
 			"rendered in its long form and in every alternative spelling, at every attribute position of the harness catalogue that admits the alternative; each spelling is one document loaded with default options. " +
 			"A pair is non-trivial when the long form and the alternative both loaded (so the typed projects were compared); distinct = distinct alternative-spelling documents. " +
 			"Near-miss strings outside the grammars are separate cases (must fail, no project). The port family additionally enumerates the complete product of its shape grammar (IP form x host form x container range length x protocol) in both tiers; port numbers, names and paths are seeded draws biased to decimal-width boundaries.",
